@@ -40,6 +40,7 @@ FUNCS = [
     ('geophires_x/Economics.py', 'CalculateTotalRevenue', {'AnnualRev': 'List'}),
     ('geophires_x/Economics.py', 'CalculateRevenue', {'Energy': 'List', 'Price': 'List'}),
     ('geophires_x/WellBores.py', 'InjectionReservoirPressurePredictor', {}),
+    ('geophires_x/WellBores.py', 'ReservoirPressurePredictor', {}),
 ]
 
 # statement sequences inside methods: (file, class, method, name of the generated def, first statement (source text of its target),
@@ -248,11 +249,31 @@ class Tr:
                         raise Unsupported('assignment target')
             elif isinstance(s, ast.For):
                 for n in self.assigned(s.body):
-                    add(n)
+                    if n != 'brk_':
+                        add(n)
             elif isinstance(s, ast.If):
                 for n in self.assigned(s.body) + self.assigned(s.orelse):
                     add(n)
+            elif isinstance(s, ast.Break):
+                add('brk_')
         return out
+
+    @staticmethod
+    def break_is_tail(stmts) -> bool:
+        """every `break` is the last statement of its block, and the conditionals leading to it are the last statements of theirs
+        (nothing of the iteration runs after a `break`, so a flag that skips the *following* iterations is the whole meaning)"""
+        for k, st in enumerate(stmts):
+            has = any(isinstance(n, ast.Break) for n in ast.walk(st))
+            if not has:
+                continue
+            if k != len(stmts) - 1:
+                return False
+            if isinstance(st, ast.Break):
+                return True
+            if isinstance(st, ast.If):
+                return Tr.break_is_tail(st.body) and Tr.break_is_tail(st.orelse)
+            return False
+        return True
 
     def tuple_of(self, names: list[str]) -> str:
         return ident(names[0]) if len(names) == 1 else '(' + ', '.join(ident(n) for n in names) + ')'
@@ -322,12 +343,25 @@ class Tr:
                 if lo[1] != 'Int' or hi[1] != 'Int' or not isinstance(s.target, ast.Name):
                     raise Unsupported('range bounds / loop variable')
                 var = s.target.id
+                has_break = any(isinstance(n, ast.Break) for st in s.body for n in ast.walk(st))
+                if has_break:
+                    if any(isinstance(n, ast.For) for st in s.body for n in ast.walk(st)) or not self.break_is_tail(s.body):
+                        raise Unsupported('break that is not the last thing its iteration does')
+                    if 'brk_' in self.types:
+                        raise Unsupported('nested loops with break')
+                    out.append(f'{ind}let brk_ := false')
+                    self.types['brk_'] = 'Bool'
                 state = [n for n in self.assigned(s.body) if n in self.types and n != var]
                 if not state:
                     raise Unsupported('loop without effect')
                 saved = dict(self.types)
                 self.types[var] = 'Int'
-                if len(state) == 1:
+                if has_break:
+                    head = f'{ind}let st := (Py.range {lo[0]} {hi[0]}).foldl (fun (st : {self.tuple_type(state)}) ({ident(var)} : Int) =>'
+                    body = (self.unpack(state, 'st', ind + '    ') + [f'{ind}    if brk_ = true then {self.tuple_of(state)} else ('] + self.block(s.body, ind + '      ')
+                            + [f'{ind}      {self.tuple_of(state)})) {self.tuple_of(state)}'])
+                    out += [head] + body + self.unpack(state, 'st', ind)
+                elif len(state) == 1:
                     head = f'{ind}let {ident(state[0])} := (Py.range {lo[0]} {hi[0]}).foldl (fun ({ident(state[0])} : {LEAN_T[self.types[state[0]]]}) ({ident(var)} : Int) =>'
                     body = self.block(s.body, ind + '    ')
                     out += [head] + body + [f'{ind}    {ident(state[0])}) {ident(state[0])}']
@@ -341,6 +375,7 @@ class Tr:
                         del self.types[n]
                 for n in state:
                     self.types[n] = saved[n]
+                self.types.pop('brk_', None)
             elif isinstance(s, ast.If) and s.body and isinstance(s.body[-1], ast.Return) and not s.orelse and stmts is self.fn.body:
                 # early return at the top level:  if c: …; return X   <rest>   ==>   if c then (…; X) else (<rest>)
                 c = self.cond(s.test)
@@ -372,6 +407,8 @@ class Tr:
                 out += b2 + [f'{ind}    {self.tuple_of(names)})']
                 if len(names) > 1:
                     out += self.unpack(names, 'st', ind)
+            elif isinstance(s, ast.Break):
+                out.append(f'{ind}let brk_ := true')
             elif isinstance(s, ast.Return):
                 if s is not stmts[-1] or not (s is self.fn.body[-1] or getattr(self, '_early', False)):
                     raise Unsupported('return before the end')
